@@ -94,7 +94,10 @@ AtomSecond == { E, << 0 >>, << 1 >>, << 0, 1 >>, << 0, 128 >>, << 128 >>, << 255
 
 B48   == Fill(170, 48)
 B49   == Fill(170, 49)
-B1100 == Fill(170, 1100)
+\* the 1100-byte atom starts with slices that are "heap-backed small integers" when cut out by new_substr:
+\* (0,1) = 05, (1,2) = 7f, (2,4) = 0080, (4,8) = 03ffffff are canonical small; (8,12) = 04000000, (2,3) = 00,
+\* (12,14) = 0001 are their non-small neighbours
+B1100 == << 5, 127, 0, 128, 3, 255, 255, 255, 4, 0, 0, 0, 0, 1 >> \o Fill(170, 1086)
 
 ---------------------------------------------------------------------------
 (* the universe of calls offered in a state, per profile and step number *)
@@ -143,7 +146,7 @@ U(d) ==      \* d = number of calls already made
          ELSE [U0 EXCEPT !.nums = IntSecond, !.i64s = {ZI(-128), ZI(128)}, !.atoms = AtomSecond]
     [] Profile = "bytes" -> [U0 EXCEPT !.atoms = ByteUniverse(0)]        \* step 2 is forced, see MCNext
     [] Profile = "gc" ->      \* steps 1, 2 are forced (an old 1100-byte heap atom = node 3, then the transparent checkpoint)
-         [U0 EXCEPT !.atoms = {B48, B49, B1100, << 5 >>}, !.pairWin = 1, !.subWin = 2, !.subMode = "gc", !.subAlso = {3},
+         [U0 EXCEPT !.atoms = {B48, B49, B1100, << 5 >>}, !.pairWin = 1, !.subWin = 1, !.subMode = "gc", !.subAlso = {3},
                     !.maxCps = 1, !.cpKinds = {"tcheckpoint"}, !.thr = {<< MinSavings, CloneAtomLimit >>},
                     !.mrWin = 3, !.mrAlso = {1, 3}]
     [] Profile = "sim" ->
@@ -170,6 +173,8 @@ Ranges(L, mode) ==
                                        << L + 1, L + 1 >>, << 0, L + 1 >>, << 2, 1 >> }
                 [] mode = "few"  -> { << 0, L >>, << 1, L >>, << 0, L - 1 >>, << 0, L + 1 >> }
                 [] mode = "gc"   -> { << 0, 48 >>, << 1, 50 >>, << L - 1, L >>, << 0, 0 >>, << L, L >> }
+                                      \cup (IF L >= 1100 THEN { << 0, 1 >>, << 2, 4 >>, << 4, 8 >>, << 8, 12 >>, << 12, 14 >> }
+                                            ELSE {})
   IN  { rg \in cand : rg[1] >= 0 /\ rg[2] >= 0 }
 
 \* node lists for new_concat: the empty list, every single atom, every ordered pair (triple) of the window
